@@ -32,6 +32,8 @@ def scenarios(tier: str) -> List[ConcScenario]:
     # a removing compute (closure returns None) against a writer of the same key in a tree bin / a list bin
     S.append(ConcScenario('tree/compute-none-vs-replace', hasher='const', capacity=40, prefill=tree, threads=[[('compute_none', 5)], [('insert', 5)]], preemptions=2, yield_loads=th))
     S.append(ConcScenario('list/compute-none-vs-replace', hasher='identity', capacity=2, prefill=[0, 4], threads=[[('compute_none', 4)], [('insert', 4)]], preemptions=p))
+    # the tree bin is converted back to a list by a removal while a compute updates another key of the bin
+    S.append(ConcScenario('tree/untreeify-by-remove-vs-compute', hasher='const', capacity=40, prefill=tree, setup_removes=[0, 1, 2], threads=[[('remove', 3)], [('compute_inc', 5)]], preemptions=2, yield_loads=th))
     S.append(ConcScenario('list/compute-vs-clear', hasher='identity', capacity=2, prefill=[0, 4], threads=[[('compute_inc', 4)], [('clear',)]], preemptions=p))
     if th:
         S.append(ConcScenario('tree/compute-vs-clear', hasher='const', capacity=40, prefill=tree, threads=[[('compute_inc', 5)], [('clear',)]], preemptions=2, yield_loads=False))
@@ -48,4 +50,6 @@ def run(tier: str) -> int:
     scs = scenarios(tier)
     results = run_conc(scs)
     report(chk, 'C08', results, scs, describe='function runs at most once, history (incl. the value instances each compute saw and produced) linearizable')
+    from ._conc import matrix_section
+    matrix_section(chk, 'C08')
     return chk.finish()
